@@ -305,6 +305,12 @@ class FsRun:
             Y()
             with open(r(op[1]), "w"):
                 pass
+        elif k == "mkspecial":
+            Y()
+            if op[2] == "fifo":
+                os.mkfifo(r(op[1]))
+            else:
+                os.symlink(b"/nonexistent/wdsim-dangling-target", r(op[1]))
         elif k == "write":
             Y()
             with open(r(op[1]), "a") as f:
@@ -371,6 +377,8 @@ class FsRun:
             for rel, kind in op[1]:
                 if kind == "d":
                     os.mkdir(src + b"/" + enc(rel))
+                elif kind == "s":
+                    os.mkfifo(src + b"/" + enc(rel))
                 else:
                     with open(src + b"/" + enc(rel), "w"):
                         pass
